@@ -43,7 +43,10 @@ def cases(draw, tier):
         # text payload of group metadata (no data type), which to_hdf5 cannot
         # write again - outside what the property quantifies over
         spec["obs_gmd"] = spec["samp_gmd"] = None
-    return {"table": spec, "origin": origin, "compress": draw(st.booleans()), "writer": writer,
+    return {"table": spec, "origin": origin,
+            # an unrelated earlier write in the same process used custom
+            # formatters for the categories this table carries
+            "prior_custom": draw(st.sampled_from([False, False, True])), "compress": draw(st.booleans()), "writer": writer,
             "generated_by": draw(gen._H5TEXT1),
             "date": c01.date_to_json(draw(c01.DATES)),
             "sub": writer == "convert" and draw(st.sampled_from(SUB)),
@@ -74,6 +77,26 @@ def _col_equal(got, want, listy):
         elif g != w:
             return False
     return True
+
+
+def _earlier_write_with_custom_formatters(src):
+    """Another table of the same categories is written with
+    `format_fs={category: f}`; what `f` does is that call's business only."""
+    from biom import Table
+    cats = sorted({k for key in ("obs_md", "samp_md")
+                   for m in (src[key] or []) for k in (m or {})})
+    if not cats:
+        return
+
+    def custom(grp, header, md, compression):
+        name = header.replace("/", "@@SLASH@@")
+        grp.create_dataset(name, shape=(len(md),),
+                           dtype=h5spec.h5py.string_dtype(),
+                           data=[b"written by a custom formatter"] * len(md))
+    md = [{c: "x" for c in cats}]
+    small = Table(np.array([[1.0]]), ["o"], ["s"], md, md)
+    with h5spec.mem_file() as f:
+        small.to_hdf5(f, "earlier", format_fs={c: custom for c in cats})
 
 
 def check(case, rec):
@@ -109,6 +132,9 @@ def check(case, rec):
         writer = "to_hdf5"   # convert needs a loadable (non-empty) input
     gen_by = case["generated_by"]
     where = None
+    if case.get("prior_custom"):
+        _earlier_write_with_custom_formatters(src)
+        rec.cls("after-a-write-with-custom-formatters")
     with tempfile.TemporaryDirectory(prefix="vf-c04-", dir=TMP) as d:
         path = os.path.join(d, "t.biom")
         if writer == "convert":
@@ -231,3 +257,25 @@ def check(case, rec):
     noncanon = lay.get("sorted") is False or lay.get("format") != "csr"
     rec.nt((nnz >= 1 and (noncanon or src["obs_md"] is not None or
                           src["samp_md"] is not None)) or n == 0 or m == 0)
+
+
+# ---------------------------------------------------------------------------
+# pinned large cases: index arrays past 2**15 entries (the format's index
+# type is 32-bit whatever the size), on either axis
+
+def _large(n, m, dense):
+    rows = [[float((i * 31 + j * 17) % 89 + 1) if dense or (i + j) % 977 == 0
+             else 0.0 for j in range(m)] for i in range(n)]
+    return {"table": {"obs": ["o%d" % i for i in range(n)],
+                      "samp": ["s%d" % j for j in range(m)], "rows": rows,
+                      "shape": [n, m], "obs_md": None, "samp_md": None,
+                      "type": None, "table_id": None, "form": "dense",
+                      "history": [], "obs_gmd": None, "samp_gmd": None},
+            "origin": "memory", "compress": False, "writer": "to_hdf5",
+            "generated_by": "vf", "date": c01.date_to_json(
+                datetime(2020, 1, 2, 3, 4, 5)),
+            "sub": False, "date_mode": "explicit"}
+
+
+REGRESSIONS = [_large(182, 182, True), _large(32769, 1, False),
+               _large(2, 32770, False)]
